@@ -709,3 +709,66 @@ pub fn dfs_family<P: Payload>(depth: usize, max_cells: usize) -> (u64, Option<St
     }
     (n, None)
 }
+
+// ------------------------------------------------------------------------------------------
+// argument buffers: the diplomat_alloc / diplomat_free pair that bindings use for owned arguments (size 0 included: the JS
+// runtime allocates a buffer for every empty string or slice).  Histories: every pair of buffers over the size x alignment
+// alphabet, allocated in order and released in both orders; memory must be writable, aligned, distinct and survive the other
+// buffer's release.  Invalid frees / zero-size allocator requests show under ASan-less native runs as crashes and under miri as UB.
+extern "C" {
+    fn diplomat_alloc(size: usize, align: usize) -> *mut u8;
+    fn diplomat_free(ptr: *mut u8, size: usize, align: usize);
+}
+
+pub fn alloc_histories(max_size: usize) -> (u64, Option<String>) {
+    let mut sizes: Vec<usize> = vec![0, 1, 2, 3, 7, 8, 9, 16, 31];
+    sizes.retain(|s| *s <= max_size);
+    let aligns = [1usize, 2, 4, 8];
+    let mut n = 0u64;
+    let fill = |p: *mut u8, size: usize, tag: u8| unsafe {
+        for i in 0..size {
+            *p.add(i) = tag ^ (i as u8);
+        }
+    };
+    let intact = |p: *mut u8, size: usize, tag: u8| unsafe { (0..size).all(|i| *p.add(i) == tag ^ (i as u8)) };
+    for &s1 in &sizes {
+        for &a1 in &aligns {
+            for &s2 in &sizes {
+                for &a2 in &aligns {
+                    for first_released in 0..2 {
+                        unsafe {
+                            let p1 = diplomat_alloc(s1, a1);
+                            let p2 = diplomat_alloc(s2, a2);
+                            if p1.is_null() || p2.is_null() || (p1 as usize) % a1 != 0 || (p2 as usize) % a2 != 0 {
+                                return (n, Some(format!("diplomat_alloc({s1},{a1}) / ({s2},{a2}) returned {:p} / {:p}: null or misaligned", p1, p2)));
+                            }
+                            if s1 > 0 && s2 > 0 {
+                                let (lo1, hi1, lo2, hi2) = (p1 as usize, p1 as usize + s1, p2 as usize, p2 as usize + s2);
+                                if lo1 < hi2 && lo2 < hi1 {
+                                    return (n, Some(format!("two live buffers overlap: [{lo1:#x},{hi1:#x}) and [{lo2:#x},{hi2:#x})")));
+                                }
+                            }
+                            fill(p1, s1, 0x5A);
+                            fill(p2, s2, 0xA5);
+                            if first_released == 0 {
+                                diplomat_free(p1, s1, a1);
+                                if !intact(p2, s2, 0xA5) {
+                                    return (n, Some(format!("releasing a ({s1},{a1}) buffer damaged a live ({s2},{a2}) buffer")));
+                                }
+                                diplomat_free(p2, s2, a2);
+                            } else {
+                                diplomat_free(p2, s2, a2);
+                                if !intact(p1, s1, 0x5A) {
+                                    return (n, Some(format!("releasing a ({s2},{a2}) buffer damaged a live ({s1},{a1}) buffer")));
+                                }
+                                diplomat_free(p1, s1, a1);
+                            }
+                        }
+                        n += 1;
+                    }
+                }
+            }
+        }
+    }
+    (n, None)
+}
